@@ -60,6 +60,10 @@ class EnumGenerator:
         if not re.match(r"^[A-Z_]", sanitized_member_name.upper()):
             sanitized_member_name = f"MEMBER_{sanitized_member_name}"
 
+        # Enum reserves _sunder_ names (ValueError at class creation) and does not turn __dunder__ names into members
+        if sanitized_member_name.startswith("_") and sanitized_member_name.endswith("_"):
+            sanitized_member_name = f"MEMBER{sanitized_member_name}"
+
         if not (sanitized_member_name and re.match(r"^[A-Z_][A-Z0-9_]*$", sanitized_member_name.upper())):
             raise ValueError(
                 f"Generated string enum member name '{sanitized_member_name}' "
